@@ -4,6 +4,7 @@ package main
 import (
 	"fmt"
 	"math/big"
+	"os"
 
 	"github.com/tuneinsight/lattigo/v6/ring"
 
@@ -33,8 +34,10 @@ var leafMaxPrime uint64
 // universe and on 61-bit chains in every other universe). See FINDINGS.md.
 const sigCIOverflow = "C02/conjugate-invariant/odd-logN/modulus>2^64/10/NTTLazy-range-above-6q-wraps-around-in-callers"
 
+// fail is c.Fail for the oracles proper. The signatures of the other isolated input classes (power-of-two digit count,
+// ModDown without P, ...) are recorded with c.Fail directly and keep their own signature in every universe.
 func fail(c *engine.Chooser, sig, format string, args ...interface{}) {
-	if CI && logN()%2 == 1 && leafMaxPrime > (^uint64(0))/10 {
+	if CI && logN()%2 == 1 && leafMaxPrime > (^uint64(0))/10 && os.Getenv("VERIF_C02_RAW_SIGS") == "" { // the variable shows the underlying call sites when triaging
 		sig = sigCIOverflow
 	}
 	c.Fail(sig, format, args...)
